@@ -31,6 +31,9 @@ FEATURES = ["named", "star", "starstar", "default_used", "args_overflow", "kwarg
 PATHS_ALL = ["direct", "var", "struct", "native", "native_parser", "top", "top_opaque",
              "frozen_direct", "frozen_var", "frozen_struct", "frozen_native", "frozen_native_parser",
              "load", "load_struct", "load_top", "load_frozen"]
+# only for signatures of one parameter: a callee of the shape `return type(x) == "int"`, whose calls are
+# rewritten into a type test at the call site (before freezing, after freezing, from a loading module)
+PATHS_ONE = ["typeis", "frozen_typeis", "load_typeis"]
 PATHS_HOST = ["host", "host_native", "frozen_host", "can_fill", "can_fill_native"]
 
 # (family cfg, number of slices, simulate behaviours per slice or None)
@@ -226,7 +229,7 @@ def run(tier):
     if missing and not verdict.violations:
         raise C.ToolError("vacuous generation: mechanisms never exercised by a well-formed call: %s" % missing)
     if not verdict.violations:
-        for p in PATHS_ALL + PATHS_HOST:
+        for p in PATHS_ALL + PATHS_HOST + PATHS_ONE:
             e = by_path.get(p)
             if not e or not e["expected_ok"] or not e["expected_error"]:
                 raise C.ToolError("path %s was not exercised in both directions: %s" % (p, e))
